@@ -40,7 +40,21 @@ def entry_points():
     boxbp = SpectralElement(Box1D, amplitude=0.5, x_0=2500, width=800)
     from synphot.models import Empirical1D
     halfsrc = SourceSpectrum(Empirical1D, points=[500., 1500., 2500., 3500., 5000.], lookup_table=[0., 3., 2., 4., 1.])
-    ep = {
+    # every model class that brings its own analytic integral takes the given wavelengths as limits
+    from synphot.models import Gaussian1D, GaussianFlux1D, Lorentz1D, RickerWavelet1D, Trapezoid1D, GaussianAbsorption1D  # noqa
+    anal = {
+        'gaussian_bandpass': SpectralElement(Gaussian1D, amplitude=0.8, mean=2500, stddev=150),
+        'gaussflux_source': SourceSpectrum(GaussianFlux1D, amplitude=3.0, mean=2400, stddev=120),
+        'lorentz_bandpass': SpectralElement(Lorentz1D, amplitude=0.6, x_0=2600, fwhm=300),
+        'lorentz_source': SourceSpectrum(Lorentz1D, amplitude=2.0, x_0=2300, fwhm=180),
+        'ricker_source': SourceSpectrum(RickerWavelet1D, amplitude=1.5, x_0=2500, sigma=40),
+        'trapezoid_bandpass': SpectralElement(Trapezoid1D, amplitude=0.7, x_0=2500, width=600, slope=0.002),
+    }
+    ep = {}
+    for name, sp in anal.items():
+        ep[name + '.integrate(analytical)'] = (lambda w, sp=sp: sp.integrate(wavelengths=w, integration_type='analytical').value)
+    ep['lorentz_bandpass.equivwidth(analytical)'] = lambda w: anal['lorentz_bandpass'].equivwidth(wavelengths=w, integration_type='analytical').value
+    ep.update({
         'source.__call__': lambda w: src(w).value,
         'source.__call__(flux_unit)': lambda w: src(w, flux_unit='flam').value,
         'source.integrate': lambda w: src.integrate(wavelengths=w, integration_type='trapezoid').value,
@@ -87,7 +101,7 @@ def entry_points():
         # reciprocal units): compared in Angstrom for length units only
         'binning.calculate_bin_edges': lambda w: binning.calculate_bin_edges(w).to(u.AA).value
         if (not hasattr(w, 'unit') or w.unit.physical_type == 'length') else binning.calculate_bin_edges(w).value,
-    }
+    })
     return ep
 
 
